@@ -157,8 +157,10 @@ func (c *Client) connect() error {
 // handshake puts the connection into message (or forward) mode, at which time
 // the client is free to send event messages.
 func (c *Client) Handshake() error {
-	c.sessionLock.RLock()
-	defer c.sessionLock.RUnlock()
+	// Handshake changes the session (TransportPhase) and owns the connection
+	// for the HELO/PING/PONG exchange: it needs the lock exclusively.
+	c.sessionLock.Lock()
+	defer c.sessionLock.Unlock()
 
 	if c.session == nil {
 		return errors.New("not connected")
